@@ -429,6 +429,15 @@ def systematic(seed: int) -> List[J]:
             for v in TT_VARIANTS:
                 out.append(texttable(r, it, k, nsc, v))
                 k += 1
+    # cases that make rare mechanisms certain: OPEN outer limits on an injective piecewise method
+    # with integral internal type; a text table whose only scale is unbounded on both sides
+    for it in ("A_INT32", "A_UINT32"):
+        for pt in PTYPES_NUM:
+            for kk in (2, 5, 14):
+                out.append(scalelinear(r, it, pt, kk, 2 + kk % 2, "disjoint-images",
+                                       ("open", "open")))
+    for it in ITYPES:
+        out.append(texttable(r, it, 10, 1, "ranges"))
     for j, it in enumerate(ITYPES):
         out.append(identical(it, j))
         out.append(identical(it, j + 1))
